@@ -14,6 +14,7 @@ import DriverLib.C12
 import DriverLib.C13
 import DriverLib.C14
 import DriverLib.C15
+import DriverLib.C16
 -- END-GENERATED-IMPORTS
 open Lean Drv
 
@@ -32,7 +33,8 @@ def handlers : List (String → Json → Option R) := [
   Drv.C12.handle,
   Drv.C13.handle,
   Drv.C14.handle,
-  Drv.C15.handle
+  Drv.C15.handle,
+  Drv.C16.handle
 -- END-GENERATED-HANDLERS
 ]
 
